@@ -755,13 +755,16 @@ package evaluator
 
 //@ func findFirstBetween
 //@   tags C03 C09 C11 C02 C06
+//@   ensures[C02 C08] type.args: isStr(value) && isStr(sub) && (!numOk(start) || !numOk(finish)) ==> result0 == nil && isTypeErr(result1)
+//@   ensures[C02 C08] value.args: isStr(value) && isStr(sub) && numOk(start) && numOk(finish) && (!intOk(start) || !intOk(finish)) ==> result0 == nil && isValueErr(result1)
+//@   ensures[C02 C08] no.fault: isStr(value) && isStr(sub) && numOk(start) && numOk(finish) && intOk(start) && intOk(finish) ==> result1 == nil
 //@   ensures[C11 C02] whole: isStr(value) && isStr(sub) && numOk(start) && intOk(start) && numOk(finish) && intOk(finish) && intVal(start) <= 0 && intVal(finish) >= runes(str(value)) && result1 == nil ==> ((result0 == nil) == (strIndex(key(str(value)), key(str(sub))) == -1))
 //@   ensures[C11 C02 C03] count: result1 == nil && result0 != nil ==> isInt(result0) && kind(result0) == 4 && 0 <= intv(result0) && intv(result0) <= runes(str(value))
 //@   ensures failure: result1 != nil ==> result0 == nil
 //@   loop 1
-//@     invariant 0 <= j && j <= i && 0 <= n && n <= len(s) && i <= len(s) && s == str(value0) && isbound(s, lo(s) + n)
-//@     invariant[C11 C02] units: lo(s) + n == roff(s, ridx(s, lo(s)) + j) && j <= runes(s)
-//@     decreases i - j
+//@     invariant 0 <= k && k <= i && 0 <= n && n <= len(s) && i <= len(s) && s == str(value0) && isbound(s, lo(s) + n)
+//@     invariant[C11 C02] units: lo(s) + n == roff(s, ridx(s, lo(s)) + k) && k <= runes(s)
+//@     decreases i - k
 //@     bound len(str(value0))
 //@   loop 2
 //@     invariant 0 <= k && k <= j && 0 <= n && n <= len(s) && j <= len(s) && s == str(value0) && 0 <= i && i <= len(s) && isbound(s, lo(s) + n) && isbound(s, lo(s) + i)
@@ -771,13 +774,16 @@ package evaluator
 
 //@ func findLastBetween
 //@   tags C03 C09 C11 C02 C06
+//@   ensures[C02 C08] type.args: isStr(value) && isStr(sub) && (!numOk(start) || !numOk(finish)) ==> result0 == nil && isTypeErr(result1)
+//@   ensures[C02 C08] value.args: isStr(value) && isStr(sub) && numOk(start) && numOk(finish) && (!intOk(start) || !intOk(finish)) ==> result0 == nil && isValueErr(result1)
+//@   ensures[C02 C08] no.fault: isStr(value) && isStr(sub) && numOk(start) && numOk(finish) && intOk(start) && intOk(finish) ==> result1 == nil
 //@   ensures[C11 C02] whole: isStr(value) && isStr(sub) && numOk(start) && intOk(start) && numOk(finish) && intOk(finish) && intVal(start) <= 0 && intVal(finish) >= runes(str(value)) && result1 == nil ==> ((result0 == nil) == (strLastIndex(key(str(value)), key(str(sub))) == -1))
 //@   ensures[C11 C02 C03] count: result1 == nil && result0 != nil ==> isInt(result0) && kind(result0) == 4 && 0 <= intv(result0) && intv(result0) <= runes(str(value))
 //@   ensures failure: result1 != nil ==> result0 == nil
 //@   loop 1
-//@     invariant 0 <= j && j <= i && 0 <= n && n <= len(s) && i <= len(s) && s == str(value0) && isbound(s, lo(s) + n)
-//@     invariant[C11 C02] units: lo(s) + n == roff(s, ridx(s, lo(s)) + j) && j <= runes(s)
-//@     decreases i - j
+//@     invariant 0 <= k && k <= i && 0 <= n && n <= len(s) && i <= len(s) && s == str(value0) && isbound(s, lo(s) + n)
+//@     invariant[C11 C02] units: lo(s) + n == roff(s, ridx(s, lo(s)) + k) && k <= runes(s)
+//@     decreases i - k
 //@     bound len(str(value0))
 //@   loop 2
 //@     invariant 0 <= k && k <= j && 0 <= n && n <= len(s) && j <= len(s) && s == str(value0) && 0 <= i && i <= len(s) && isbound(s, lo(s) + n) && isbound(s, lo(s) + i)
